@@ -63,6 +63,14 @@ structure Acc where
   objDates : List Int
   deriving DecidableEq, Repr, Inhabited
 
+/-- `update_refresh` + `add_*`: an object that adds payload lowers `refresh` to its
+certificate's notAfter; one that adds nothing (a ROA all of whose prefixes are filtered, a
+router certificate without AS resources) leaves it alone. -/
+def Acc.addPayload (a : Acc) (items : List Item) (notAfter : Int) : Acc :=
+  if items.isEmpty then a
+  else { a with items := a.items ++ items, refresh := min a.refresh notAfter,
+                objDates := a.objDates ++ [notAfter] }
+
 /-- `process_object` with the refresh bookkeeping: a ROA lowers `refresh` only if it added an
 origin (`add_roa` returned true), an ASPA / router certificate only if the feature is
 enabled; a CA certificate starts a child processor with `min(refresh, notAfter)`.
@@ -77,21 +85,11 @@ def processObjectX (cfg : Cfg) (now : Int) (ca : CaCtx) (vm : ValidMft) (pd : Li
     else if ca.chainLen + 1 > cfg.maxDepth then a
     else { a with kids := a.kids ++ [⟨ca.child info, min a.refresh c.notAfter, pd ++ [c.notAfter]⟩] }
   | .cer, .router c items =>
-    if c.valid now && vm.checkCrl c && cfg.bgpsec then
-      { a with items := a.items ++ items, refresh := min a.refresh c.notAfter,
-               objDates := a.objDates ++ [c.notAfter] }
-    else a
+    if c.valid now && vm.checkCrl c && cfg.bgpsec then a.addPayload items c.notAfter else a
   | .roa, .roa c items =>
-    if c.valid now && vm.checkCrl c then
-      if items.isEmpty then a
-      else { a with items := a.items ++ items, refresh := min a.refresh c.notAfter,
-                    objDates := a.objDates ++ [c.notAfter] }
-    else a
+    if c.valid now && vm.checkCrl c then a.addPayload items c.notAfter else a
   | .asa, .asa c items =>
-    if c.valid now && vm.checkCrl c && cfg.aspa then
-      { a with items := a.items ++ items, refresh := min a.refresh c.notAfter,
-               objDates := a.objDates ++ [c.notAfter] }
-    else a
+    if c.valid now && vm.checkCrl c && cfg.aspa then a.addPayload items c.notAfter else a
   | _, _ => a
 
 /-- Outcome of walking the manifest entries (after `UpdateError::Abort` the processor is
